@@ -116,7 +116,7 @@ META = {
         "generic engine (PyodaModel/Text/Stepped, Engine, Buckets; tied to the code by suites text.pat.compile/fmt/parse): stepped_roundtrip and pattern_roundtrip hold for every culture record and every Delimited list of steps of LocalTime, LocalDate (ISO), LocalDateTime (ISO, any template), Offset, AnnualDate (any template) and Duration patterns: literal / padded numeric / fraction (f, F, .F, ;F) / ';' / sign steps and the TEXT steps month names (MMM, MMMM; genitive and plain tables searched together), day names (ddd, dddd), am/pm designators (t, tt), era names (g) and the calendar id (c, ISO values); 'Representable' is stated as: the value is determined by the projection of its fields onto the slots the pattern sets; it is discharged for LocalTimePattern.extended_iso, LocalDatePattern.iso, the long Offset pattern, LocalDateTimePattern.extended_iso, the invariant long-date pattern 'dddd, dd MMMM yyyy' (every date of the common era), 'hh:mm tt' (every whole minute), AnnualDatePattern.iso (every annual date) and DurationPattern.roundtrip '-D:hh:mm:ss.FFFFFFFFF' and json_roundtrip '-H:mm:ss.FFFFFFFFF' for EVERY Duration from min_value to max_value inclusive (…_generic_roundtrip); other patterns instantiate it case by case; the share of generated patterns for which the decidable criterion Delimited holds is recorded under notes",
         "text steps: Delimited includes the decidable culture conditions NamesOK = monthNamesOK / dayNamesOK (every name of the table used on format is non-empty and no other position of the tables searched on parse holds a name of the same length equal to it up to ASCII case), amPmOK (t: first characters differ up to case; tt: the shorter designator is not a prefix of the longer up to case), eraOK (scanning the era names in parse order, the first name matching a primary name is that name) AND that the literal/field that follows a text step cannot continue a written name into a longer candidate (monthDanger / dayDanger / amPmDanger / eraDanger = the characters by which some candidate strictly extends a formatted name; Follow.notCharCI); the core theorem is parseLongest_formatted; the conditions are evaluated per run by the model (op cu.names, suite text.names, compared with the harness's own evaluation on the code's format info) and cultures failing them are listed in the notes together with concrete values that do not round-trip on the real code (e.g. 'h:mm t' where both designators start with the same character; 'MMM.'-style patterns where one month table has 'Jan' and the other 'Jan.'): these are properties of the culture data, not of the engine; case folding is ASCII in the model (texts and cultures with non-ASCII names are compared by the direct oracles only, the model answers !dom)",
         "LocalDateTime custom patterns (one step list over date and time fields, combined bucket dtValue = _combine_buckets incl. the 24:00 roll-over, any ISO template value) are inside the engine (datetime_pattern_roundtrip); Representable is discharged for LocalDateTimePattern.extended_iso for every value and every template with whole seconds (isoDateTime_generic_roundtrip; an omitted optional fraction takes the template's fraction, example in C07DateTime.lean); tied to LocalDateTimePattern.create(text, culture, template) by suites text.pat.compile/fmt/parse (type tokens datetime / datetime:y,m,d,nod)",
-        "NOT covered by theorems (correspondence and direct oracles only): the calendar field for non-ISO values, embedded patterns (ld<...>, lt<...>: the model answers !dom), the Instant pattern adapter, non-ISO calendars, non-ASCII case folding, ICU culture data extraction; reformat_idempotent (generic engine) covers patterns of literals and full-width non-negative numeric fields with distinct slots at the level of steps and buckets (the accessors must return the parsed field values); variable-width fields, fractions, signs and the sign-carrying 'uuuu' are excluded (negative zero, optional parts)",
+        "NOT covered by theorems (correspondence and direct oracles only): round trip through patterns with embedded parts (ld<...>, lt<...>: modelled as Pat.segmented and tied to the code by the suites, but stepped_roundtrip is stated for plain step lists), the calendar field for non-ISO values, the Instant <-> UTC date-time conversion of the Instant adapter (Instant patterns are LocalDateTime patterns over the UTC fields: type token instant), non-ISO calendars, non-ASCII case folding, ICU culture data extraction; reformat_idempotent (generic engine) covers patterns of literals and full-width non-negative numeric fields with distinct slots at the level of steps and buckets (the accessors must return the parsed field values); variable-width fields, fractions, signs and the sign-carrying 'uuuu' are excluded (negative zero, optional parts)",
         "Instant/LocalDate day-number <-> (year, month, day) conversion is outside the Text model (the harness passes date fields)",
     ],
     "rule": "distinct = distinct (pattern, culture, value) triple or op line; non-trivial = the pattern was created and the value formatted",
